@@ -959,7 +959,11 @@ class FortranReaderBase:
                 # ;-separator not recognized in pyf-mode
                 items = []
                 # Deal with each Fortran statement separately.
-                split_line_iter = iter(item.get_line().split(";"))
+                # (get_line() gives the lower-cased form used for matching;
+                # the statements themselves keep the case they were
+                # written in, like every statement on a line of its own.)
+                masked_line, restore = string_replace_map(item.line, lower=False)
+                split_line_iter = iter(masked_line.split(";"))
                 first = next(split_line_iter)
                 # The full line has already been processed as a Line
                 # object in 'item' (and may therefore have label
@@ -971,7 +975,7 @@ class FortranReaderBase:
                 # statement (rather than the full line). Subsequent
                 # statements need to be processed into Line
                 # objects.
-                items.append(item.copy(first.strip(), apply_map=True))
+                items.append(item.copy(restore(first.strip())))
                 for line in split_line_iter:
                     # Any subsequent statements have not been processed
                     # before, so new Line objects need to be created.
@@ -985,7 +989,7 @@ class FortranReaderBase:
                         # using the existing span (line numbers) and
                         # reader.
                         new_line = Line(
-                            item.apply_map(line), item.span, label, name, item.reader
+                            restore(line), item.span, label, name, item.reader
                         )
                         items.append(new_line)
                 items.reverse()
